@@ -42,7 +42,7 @@ cgsrfs(trans_t trans, SuperMatrix *A, SuperMatrix *L, SuperMatrix *U,
  *         Specifies the form of the system of equations:
  *         = NOTRANS:  A * X = B     (No transpose)
  *         = TRANS:    A**T * X = B  (Transpose)
- *         = CONJ:     A**H * X = B  (Conjugate transpose = Transpose)
+ *         = CONJ:     A**H * X = B  (Conjugate transpose)
  *
  * A       (input) SuperMatrix*
  *         The original matrix A in the system, or the scaled A if
@@ -212,9 +212,9 @@ cgsrfs(trans_t trans, SuperMatrix *A, SuperMatrix *L, SuperMatrix *U,
     
     if ( notran ) {
 	*(unsigned char *)transc = 'N';
-        transt = TRANS;
+        transt = CONJ; /* the estimator needs inv(A)**H */
     } else {
-	*(unsigned char *)transc = 'T';
+	*(unsigned char *)transc = (trans == CONJ) ? 'C' : 'T';
 	transt = NOTRANS;
     }
 
